@@ -141,6 +141,11 @@ pub fn twin_prefix_grammars() -> Vec<GCase> {
         GCase::json("twin_props", r#"{"type":"object","properties":{"a":{"type":"string"},"b":{"type":"string"}},"additionalProperties":false}"#).tag("twin"),
         GCase::json("twin_anyof", r#"{"anyOf":[{"type":"object","properties":{"k":{"type":"integer"}},"required":["k"],"additionalProperties":false},{"type":"array","items":{"type":"integer"},"minItems":1,"maxItems":1}]}"#).tag("twin"),
         GCase::lark("twin_rep", "start: \"(\" W \")\" | \"[\" W \"]\" | \"{\" W \"}\"\nW: /[a-c]{1,4}/\n").tag("twin"),
+        // lazy lexemes whose accepting lexer state is reachable by several (state, byte) routes: which route
+        // creates the shared lexer state first depends on the sibling's history
+        GCase::lark("twin_lazy_num", "start: body \"!\" | NUM\nbody[lazy]: /.*;/\nNUM: /[0-9]+/\n").tag("twin").tag("hot:x;!1"),
+        GCase::lark("twin_lazy_kw", "start: (\"a\" | \"b\")? body \"!\" | WORD \"?\"\nbody[lazy]: /[a-z]*;/\nWORD: /[a-z]+/\n").tag("twin").tag("hot:ab;!?x"),
+        GCase::lark("twin_lazy_two", "start: one \"1\" | two \"2\" | /[xy]+/\none[lazy]: /[a-z]*q/\ntwo[lazy]: /[a-y]*zq/\n").tag("twin").tag("hot:qzx12a"),
     ]
 }
 
